@@ -1,18 +1,22 @@
-(** C14 — corrupted log and table bytes are never served as valid data.
+(** C14 — corrupted log and table bytes are never served as valid data (PARTIAL).
 
     Proved: the CRC-32C step is injective, hence for messages of EVERY length any
     change confined to one byte — in particular every single-bit flip — changes
-    the checksum; for the WAL framing, a one-byte change in type ++ payload or in
-    the stored checksum makes DecodeRecord return ErrBadChecksum (never Ok).
-    Not proved (partial): flips in length-bearing fields (WAL length word, entry
-    header varints) re-frame the record — accepted only on a checksum coincidence
-    of the data; value-log and SST block framings have no theorem here (the
-    value-log record codec is covered by the exhaustive-flip correspondence, SST
-    blocks are not covered). *)
+    the checksum.  WAL record and value-log / WAL-payload entry record: a one-byte
+    change in the checksummed body (with the length-bearing fields intact) or in the
+    stored checksum gives ErrBadChecksum, never Ok.  C14_len_field_partial: whatever
+    bytes DecodeRecord is handed (e.g. after a flip of the length word, which re-frames
+    the stream), it accepts only a span that is exactly a well-formed frame whose
+    stored checksum equals the checksum of its content — a flipped length is accepted
+    iff the re-framed span happens to carry its own matching checksum.
+    Not proved: the same characterisation for the entry header varints; the SST block
+    and index checksums (lsm/table.go loadBlock, file/sstable_linux.go) have no model —
+    they are covered by exhaustive bit flips of small table files read through the real
+    table path (test-level evidence, oracle only). *)
 From Coq Require Import List NArith.
 From Coq Require Import Init.Byte.
-From NoKV Require Import Base.Bytes Base.Num Base.Crc32c Model.WalCodec Spec.WalSpec Spec.CorruptSpec
-  Proofs.WalProofs Proofs.CorruptProofs.
+From NoKV Require Import Base.Bytes Base.Num Base.Crc32c Model.WalCodec Model.EntryCodec Spec.WalSpec Spec.CorruptSpec
+  Proofs.WalProofs Proofs.CodecRtProofs Proofs.CorruptProofs.
 Import ListNotations.
 Local Open Scope N_scope.
 
@@ -44,3 +48,25 @@ Print Assumptions C14_wal_stored_crc.
 Theorem C14_flip_is_one_byte : forall m i, i < 8 * blen m -> one_byte_diff m (flip_bit i m).
 Proof. exact flip_bit_diff. Qed.
 Print Assumptions C14_flip_is_one_byte.
+
+(** value-log / WAL-payload entry record (kv.DecodeEntryFrom) *)
+Theorem C14_vlog_body : forall e key' val' rest,
+  entry_ok e -> blen key' = blen (e_key e) -> blen val' = blen (e_val e) ->
+  one_byte_diff (e_key e ++ e_val e) (key' ++ val') ->
+  decode_entry_from (enc_header (blen (e_key e)) (blen (e_val e)) (e_meta e) (e_exp e) ++ key' ++ val' ++
+                     be32 (crc32c (enc_entry_body e)) ++ rest) = EdBadCrc.
+Proof. exact entry_body_corrupt. Qed.
+Print Assumptions C14_vlog_body.
+
+Theorem C14_vlog_stored_crc : forall e crc' rest,
+  entry_ok e -> one_byte_diff (be32 (crc32c (enc_entry_body e))) crc' ->
+  decode_entry_from (enc_entry_body e ++ crc' ++ rest) = EdBadCrc.
+Proof. exact entry_crc_corrupt. Qed.
+Print Assumptions C14_vlog_stored_crc.
+
+(** length-bearing field of the WAL frame: acceptance implies a self-consistent frame *)
+Theorem C14_len_field_partial : forall bs ty p len rest,
+  decode_record bs = DOk ty p len rest ->
+  bs = be32 len ++ (ty :: p) ++ be32 (crc32c (ty :: p)) ++ rest /\ len = blen p + 1 /\ len < two32.
+Proof. exact decode_record_ok_inv. Qed.
+Print Assumptions C14_len_field_partial.
